@@ -8,7 +8,7 @@ BASE_NOTE = ("Trusted base: the reference model in harness/ref (bit-slice BIP39 
              "rapid v1.3.0 and the Go toolchain. Generated-input search never establishes absence.")
 
 # id -> (built, category, technique, level text, level note, design ref)
-BUILT = set("C01 C02 C05 C08 C09 C16".split())
+BUILT = set("C01 C02 C03 C05 C08 C09 C15 C16".split())
 
 # id -> (category, technique, level text, extra note, design ref)
 P = {
@@ -20,6 +20,14 @@ P = {
          "round-trip property (generate -> validate) over the pairwise table, leading-zero-byte sweeps, scripted and default randomness sources, and reference-assembled valid sentences",
          "Every generated mnemonic (by entropy, by NewMnemonic under a scripted source and under the default source) and every sentence assembled from golden words with a reference-solved checksum must be accepted by CheckMnemonic and IsMnemonicValid; leading zero bytes k=0..size are enumerated for every size and language.",
          "", "6/C02"),
+ "C03": ("exploration",
+         "differential accept-set scans (all 2048 last words / all substitutions) against the reference validator + one-directional soundness oracle on defect-mutated and arbitrary strings; native go fuzzing of a structured sentence-mutation target in the thorough tier",
+         "For generated prefixes all 2048 final words are validated and the accepted set must be exactly the reference's 2^(11-n/3) solutions; all substitutions at generated positions; tens of thousands of single-defect mutants and arbitrary Unicode/byte strings must never be accepted unless the most liberal reading (strings.Fields of the NFKD form) is a valid mnemonic; IsMnemonicValid must agree with CheckMnemonic everywhere.",
+         "A stricter-than-necessary validator (e.g. rejecting doubled spaces) is deliberately not flagged.", "6/C03"),
+ "C15": ("exploration",
+         "generated single-defect sentences re-classified by the reference model, errors.Is / message-content oracle",
+         "Sentences with exactly one defect class (count only, checksum only, unknown token with acceptable count) are generated over all languages and sizes (counts 0..40 exhaustively) and the returned error must match ErrWordLen / ErrChecksumIncorrect / be a non-sentinel error naming an unknown token; valid sentences must give nil.",
+         "Combined defects are not asserted (the property does not order them).", "6/C15"),
  "C05": ("exploration",
          "round-trip through an independent decoder + metamorphic single-bit-flip relation",
          "Sentences returned for the pairwise table and for random structured entropies are decoded by the reference decoder and must give back the entropy; for the random cases all ENT single-bit flips must change the sentence and decode to the flipped entropy.",
